@@ -96,7 +96,8 @@ pub fn run(args: &Args, rep: &mut Report) {
                     }
                 }
                 let noise: u64 = rng.gen::<u64>() & !full & !(1u64 << s);
-                for o in [occ, occ | noise | (1u64 << s)] {
+                let variants: &[u64] = if mask_only { &[occ] } else { &[occ, occ | noise | (1u64 << s)] };
+                for &o in variants {
                     lookups += 1;
                     let idx = if is_rook { hook::rook_index(s, o) } else { hook::bishop_index(s, o) };
                     if idx >= len {
@@ -109,7 +110,7 @@ pub fn run(args: &Args, rep: &mut Report) {
                         rep.violation(&format!("{}-attack-set-wrong", name), format!("{} attacks square {} occ {:x}: table {:x}, ray walk {:x}", name, s, o, got, want), json!({"kind":"c04","piece":name,"square":s,"occ":format!("{:x}", o)}));
                     }
                 }
-                if occ != 0 {
+                if occ != 0 && !mask_only {
                     // distinct (square, relevant occupancy) classes with at least one blocker
                     rep.distinct_hash(monlib::mix(monlib::mix(s as u64, is_rook as u64), occ & mask));
                 }
